@@ -69,6 +69,35 @@ def expected_view(op, L, i, j, vals, target):
     return L, ret
 
 
+def expected_survivors(op, L, i, j, target, node_view):
+    """Indexes (into the view before the op) of the elements that list semantics keep in place as the same objects."""
+    n = len(L)
+    idx = list(range(n))
+    if op in ('insert', 'append', 'extend'):
+        return idx
+    if op in ('setitem', 'setslice'):
+        if not node_view:
+            return idx          # string views update the existing token in place
+        r = range(n)[i:j] if op == 'setslice' else [range(n)[i]]
+        return [x for x in idx if x not in r]
+    if op in ('pop', 'delitem'):
+        k = range(n)[i]
+        return [x for x in idx if x != k]
+    if op == 'pop_last':
+        return idx[:-1]
+    if op == 'delslice':
+        r = range(n)[i:j]
+        return [x for x in idx if x not in r]
+    if op == 'clear':
+        return []
+    if op == 'remove':
+        first = next(x for x in idx if L[x] == target)
+        return [x for x in idx if x != first]
+    if op == 'discard':
+        return [x for x in idx if not (L[x] == target)]
+    raise AssertionError(op)
+
+
 def apply_view(op, w, i, j, vals, target):
     if op == 'remove':
         return w.remove(target)
@@ -136,6 +165,7 @@ def make_view(scaf_name, n, vi, op, facet, pre=None, twin=False):
                 L2, exp_ret = expected_view(op, L, i, j, vals, target)
             except REFUSALS as e:
                 exp_exc = type(e)
+            surv = expected_survivors(op, L, i, j, target, view.kind == 'node') if exp_exc is None else None
             got_exc = None
             ret = None
             try:
@@ -161,6 +191,11 @@ def make_view(scaf_name, n, vi, op, facet, pre=None, twin=False):
                     check(got_exc is exp_exc, 'views:', what, 'exception differs from list semantics: list', exp_exc, 'view', got_exc)
                 return
             raw2 = list(raw)
+            # only the designated children go away: other kinds untouched, surviving view elements are the same objects in order
+            check([id(x) for x in raw2 if not view.pred(x) and any(x is y for y in ref)] == [id(x) for x in ref if not view.pred(x)],
+                  facet + ':', what, 'removed or re-ordered children of another kind')
+            check([id(x) for x in raw2 if view.pred(x) and any(x is y for y in ref)] == [id(Lobj[x]) for x in surv],
+                  facet + ':', what, 'the children that went away are not the ones the operation designates')
             if facet == 'views':
                 got = list(w)
                 same = len(got) == len(L2) and all((a is b) if view.kind == 'node' else (a == b) for a, b in zip(got, L2))
@@ -201,7 +236,12 @@ def make_view(scaf_name, n, vi, op, facet, pre=None, twin=False):
                     docenv.tree_invariant(ret, store=ret.token_store, what='popped node')
             elif facet == 'reparse':
                 docenv.tree_invariant(f, what='tree after ' + what)
-                docenv.reparse_equivalent(f, what='reparse after ' + what)
+                again = docenv.reparse_equivalent(f, what='reparse after ' + what)
+                p2 = sc.get_parent(again)
+                for name, o, pred, conv in others:   # what each view says == what the same view of the re-parsed text says
+                    g = [docenv.semdump(x) if isinstance(x, M.RawModel) else x for x in o]
+                    e = [docenv.semdump(x) if isinstance(x, M.RawModel) else x for x in getattr(p2, name)]
+                    check(g == e, 'reparse:', what, 'view', name, 'says', R(g), 'but the printed text says', R(e))
 
     name = 'view_%s_%s%d_%s_%s%s%s' % (facet, scaf_name, n, view.attr, op, ('_after_' + pre) if pre else '', '_twin' if twin else '')
     return name, cell
